@@ -42,16 +42,19 @@ var lieFields = map[string][]string{
 	"tx": {"hash", "height", "index", "tx_byte", "result.code", "result.data", "result.gas_wanted", "result.gas_used",
 		"result.log", "result.info", "result.events", "result.codespace",
 		"proof.root_hash", "proof.data_byte", "proof.leaf_hash", "proof.aunt_byte", "proof.aunt_drop", "proof.aunt_add",
-		"proof.index", "proof.total", "other_tx"},
+		"proof.index", "proof.total", "other_tx",
+		// coherent restatements of a genuine proof (result index and proof index moved together), restated totals, transplants
+		"proof.restate_eq_total", "proof.restate_index", "proof.restate_total", "proof.transplant_aunts", "proof.transplant_proof"},
 	"tx_search": {"tx.hash", "tx.height", "tx.index", "tx.tx_byte", "tx.result.code", "tx.result.data", "tx.result.gas_wanted", "tx.result.gas_used",
 		"tx.result.log", "tx.result.events",
 		"tx.proof.root_hash", "tx.proof.data_byte", "tx.proof.leaf_hash", "tx.proof.aunt_byte", "tx.proof.index", "tx.proof.total",
-		"total_count", "drop_one"},
+		"total_count", "drop_one",
+		"tx.proof.restate_eq_total", "tx.proof.restate_index", "tx.proof.restate_total", "tx.proof.transplant_aunts", "tx.proof.transplant_proof"},
 	"block_results": {"height", "tx.code", "tx.data", "tx.gas_wanted", "tx.gas_used", "tx.log", "tx.info", "tx.events", "tx.codespace",
 		"tx_drop", "tx_add", "tx_swap", "begin_events", "end_events", "val_updates", "param_updates", "other_height", "tx_nil"},
 	"abci_query": {"value_byte", "value_nil", "key_byte", "height", "code", "log", "index",
 		"proof.drop_first", "proof.drop_last", "proof.op_data_byte", "proof.op_type", "proof.op_key", "proof.nil", "proof.swap",
-		"forged_store", "other_key", "other_height"},
+		"forged_store", "other_key", "other_height", "proof.restate_index", "proof.restate_total"},
 	"consensus_params": {"block.max_bytes", "block.max_gas", "block.time_iota_ms", "evidence.max_age_num_blocks", "evidence.max_age_duration",
 		"evidence.max_bytes", "validator.pub_key_types", "version.app_version", "height", "other_height"},
 	"blockchain": {"last_height", "meta.blockid.hash", "meta.blockid.parts", "meta.header.app_hash", "meta.header.height", "meta.header.time",
@@ -441,6 +444,79 @@ func (l *liar) lieTx(li *lie, field string, r *ctypes.ResultTx, prove bool) {
 			}
 		case "proof.total":
 			pr.Total += int64(li.x%3) + 1
+		default:
+			l.restateTx(li, field, r)
+		}
+	}
+}
+
+// restateTx: coherent restatements of genuine proofs. The transaction, its hash and the audit
+// path stay genuine; what is claimed about their position changes, in the result and in the
+// proof alike, so that only the root recomputation can tell.
+func (l *liar) restateTx(li *lie, field string, r *ctypes.ResultTx) {
+	tb := l.s.ch.Blocks[r.Height]
+	if tb == nil || int(r.Index) >= len(tb.Data.Txs) {
+		return
+	}
+	txs := tb.Data.Txs
+	total, k := int64(len(txs)), int64(r.Index)
+	pr := &r.Proof.Proof
+	setIndex := func(j int64) {
+		if j < 0 {
+			j = total
+		}
+		r.Index, pr.Index = uint32(j), j
+	}
+	switch field {
+	case "proof.restate_eq_total":
+		// the genuine proof of the LAST leaf presented as leaf number `total`
+		if li.x&3 != 0 && k != total-1 {
+			if o, err := l.honest.Tx(context.Background(), sha(txs[total-1]), true); err == nil && o.Height == r.Height && int64(o.Index) == total-1 {
+				*r = *o
+				pr = &r.Proof.Proof
+			}
+		}
+		setIndex(total)
+		if li.fix >= 2 {
+			pr.Total = total + 1 // ... of a block that would then have one more tx
+		}
+	case "proof.restate_index":
+		j := []int64{total + 1, k + 1, k - 1, total, int64(li.i) % (total + 3), 2*total - 1 - k}[li.x%6]
+		if j == k {
+			j = k + 1
+		}
+		setIndex(j)
+	case "proof.restate_total":
+		nt := total - 1
+		if li.x&1 != 0 || nt <= 0 {
+			nt = total + 1
+		}
+		pr.Total = nt
+		if li.fix >= 1 && k >= nt {
+			setIndex(nt - 1)
+		}
+	case "proof.transplant_aunts", "proof.transplant_proof":
+		if total < 2 {
+			return
+		}
+		o := (k + 1 + int64(li.i)%(total-1)) % total
+		op := txs.Proof(int(o))
+		if field == "proof.transplant_aunts" {
+			pr.Aunts = op.Proof.Aunts
+		} else {
+			lh := pr.LeafHash
+			*pr = op.Proof
+			if li.fix >= 2 {
+				r.Proof.Data = op.Data // the whole proof of the other tx next to this tx
+			} else {
+				pr.LeafHash = lh // the other leaf's path under this leaf
+			}
+		}
+		if li.fix >= 1 {
+			r.Index = uint32(o)
+			pr.Index = o
+		} else {
+			pr.Index = k
 		}
 	}
 }
@@ -620,6 +696,25 @@ func (l *liar) ABCIQueryWithOptions(ctx context.Context, path string, data tmbyt
 			case "proof.swap":
 				if len(ops) >= 2 {
 					ops[0], ops[1] = ops[1], ops[0]
+				}
+			case "proof.restate_index", "proof.restate_total":
+				// the Merkle proof inside a value op restated: index == total, index +/- 1, total +/- 1
+				var vo tmcrypto.ValueOp
+				if vo.Unmarshal(ops[k].Data) != nil || vo.Proof == nil {
+					return res, err
+				}
+				pc := *vo.Proof
+				if li.field == "proof.restate_index" {
+					pc.Index = []int64{pc.Total, pc.Index + 1, pc.Index - 1, pc.Total + 1}[li.x%4]
+					if pc.Index < 0 {
+						pc.Index = pc.Total
+					}
+				} else if pc.Total += 1; li.x&1 != 0 && pc.Total > 2 {
+					pc.Total -= 2
+				}
+				vo.Proof = &pc
+				if bz, e := vo.Marshal(); e == nil {
+					ops[k].Data = bz
 				}
 			}
 			r.ProofOps = &tmcrypto.ProofOps{Ops: ops}
